@@ -124,6 +124,7 @@ def run(chk, tier, seed):
     strings = [''.join(t) for n in (1, 2) for t in itertools.product(ALPHA, repeat=n)]
     strings += [''.join(t) for t in itertools.product(SMALL, repeat=3)] if tier != 'quick' else [''.join(rnd.choice(SMALL) for _ in range(3)) for _ in range(300)]
     strings += ['c:/a*', '//host/share/a[b', '//?/UNC/h/s/x*', '//?/c:/x|y', 'c:', '//h/s', 'a/./b', './a', '../*', 'a//b/', '/abs/*x', '~user/x', '-a', '!a', 'a\\b', 'a\\\\b', '.\n',
+                '//?/UNC/server/sh*re/file', '//./UNC/se[r]ver/share/f', '//?/GLOBAL/UNC/h/s?/x', '//?/unc/h/s(a)/x', '//?/Unc/h*/s/x',
                 ''.join(rnd.choice(ALPHA) for _ in range(8)), ''.join(rnd.choice(ALPHA) for _ in range(12))]
     for c in '*?[(|{!-~':
         strings += ['a//' + c + 'b', 'a\\/' + c + 'b', 'a/\\' + c, 'a///' + c, 'a/' + c + '//' + c, c + '//' + c]
@@ -155,6 +156,18 @@ def run(chk, tier, seed):
     chk.bounds.update(dict(c09_strings=len(strings), c09_flagsets=len(flagsets), c09_outcomes=counts))
     chk.sample(dict(string='a*[', escaped='a\\*\\[', flags='EXTMATCH|BRACE'))
     fs_clause(chk, tier)
+    # platform-default mode: with unix=None escape follows the platform the interpreter runs on (here: not Windows => the Unix rules)
+    import sys as _sys
+    if not _sys.platform.startswith('win'):
+        nd = 0
+        for sx in strings + ['//a*/b/c', '//[ab]/c/d', '//h/s(1)/x', '//?/c:/x*', '//a-b/c!/d']:
+            for val in (sx, sx.encode('latin-1', 'replace')):
+                nd += 1
+                if G.escape(val) != G.escape(val, unix=True):
+                    chk.violation(dict(obligation='C09.bounded.escape_default_mode_is_the_platform_mode', pattern=sx, witness=sx),
+                                  f'glob.escape({val!r}) = {G.escape(val)!r} but under the Unix rules of this platform it must be {G.escape(val, unix=True)!r}',
+                                  f"import sys; sys.path.insert(0, {REPO!r})\nfrom wcmatch import glob\na, b = glob.escape({val!r}), glob.escape({val!r}, unix=True)\nprint(a, b)\nsys.exit(0 if a == b else 1)\n")
+        chk.case(key='escape-default', n=nd)
 
 
 def fs_job(args):
